@@ -125,7 +125,7 @@ func (c *BindingManager) RemoveBinding(data model.BindingManagementDeleteCallTyp
 	for _, item := range c.bindingEntries {
 		itemAddress := item.ClientFeature.Address()
 
-		if !reflect.DeepEqual(*itemAddress, clientAddress) &&
+		if !reflect.DeepEqual(*itemAddress, clientAddress) ||
 			!reflect.DeepEqual(item.ServerFeature, serverFeature) {
 			newBindingEntries = append(newBindingEntries, item)
 		}
